@@ -41,6 +41,9 @@ class ReadHandle:
     def __exit__(self, *a):
         return False
 
+    def close(self):          # an explicit close() instead of a with-statement
+        return None
+
     def read(self, n=None):
         f = self.gfs.fs[self.path]
         return ReadBack(f, self.mode, self.kwargs, n)
